@@ -1,9 +1,17 @@
 /* vf_mmfile.h - ghost model of a coordinate (Matrix Market / triplet) text file, shared by the
  * contracts of dreadMM / dreadtriple (which state well-formedness and the result in terms of it)
- * and by the trusted stdio stubs in harness/dreadMM.c (which hand its records to the reader).
- * Pulled in with `@@goto_flags -include vf_mmfile.h`; nothing here is compiled into /repo. */
+ * and by the trusted stdio model (contracts/vf_mmfile_impl.h, included by the harnesses).
+ * Pulled in with `@@goto_flags -include vf_mmfile.h`; nothing here is compiled into /repo.
+ *
+ * stdio entry points used by the readers are variadic; DFCC instrumentation appends a write-set
+ * parameter to every function, which collides with va_arg.  They are therefore mapped BY ARITY onto
+ * fixed-arity model functions vf_<fn>_<number of arguments> (textual macro, like USER_MALLOC). */
 #ifndef VF_MMFILE_H
 #define VF_MMFILE_H
+#include <stdio.h>
+#include <stdlib.h>
+#include <string.h>
+#include <ctype.h>
 #ifndef VF_FZ
 #define VF_FZ 3          /* capacity: records in the file */
 #endif
@@ -16,4 +24,36 @@ struct vf_mmfile {
     int row[VF_FZ], col[VF_FZ]; double val[VF_FZ];   /* the records, 1-based as written in the file */
 };
 extern struct vf_mmfile *vf_F;
+
+#define VF_NARG_(a1, a2, a3, a4, a5, a6, a7, a8, N, ...) N
+#define VF_NARG(...) VF_NARG_(__VA_ARGS__, 8, 7, 6, 5, 4, 3, 2, 1, 0)
+#define VF_CAT_(a, b) a##b
+#define VF_CAT(a, b) VF_CAT_(a, b)
+
+#undef fscanf
+#undef sscanf
+#undef scanf
+#undef fprintf
+#undef tolower
+#define fscanf(...)  VF_CAT(vf_fscanf_, VF_NARG(__VA_ARGS__))(__VA_ARGS__)
+#define sscanf(...)  VF_CAT(vf_sscanf_, VF_NARG(__VA_ARGS__))(__VA_ARGS__)
+#define scanf(...)   VF_CAT(vf_scanf_, VF_NARG(__VA_ARGS__))(__VA_ARGS__)
+#define fprintf(fp, ...) vf_fprintf_0(fp)
+#define tolower(c)   vf_tolower(c)
+#define strcmp(a, b) vf_strcmp(a, b)
+#define fgets(s, n, fp) vf_fgets(s, n, fp)
+
+/* dreadMM */
+int vf_sscanf_7(const char *str, const char *fmt, char *banner, char *mtx, char *crd, char *arith, char *sym);
+int vf_sscanf_3(const char *str, const char *fmt, char *tok);
+int vf_sscanf_5(const char *str, const char *fmt, int *m, int *n, int *nonz);
+int vf_fscanf_5(FILE *fp, const char *fmt, int *r, int *c, double *v);
+int vf_fscanf_3(FILE *fp, const char *fmt, double *v);
+/* dreadtriple */
+int vf_scanf_3(const char *fmt, int *n, int *nonz);
+int vf_scanf_4(const char *fmt, int *r, int *c, double *v);
+int vf_fprintf_0(FILE *fp);
+int vf_tolower(int c);
+int vf_strcmp(const char *a, const char *b);
+char *vf_fgets(char *s, int size, FILE *stream);
 #endif
